@@ -29,6 +29,14 @@ pub proof fn axiom_rcdnf_cmp()
 pub open spec fn memo_kept<K>(o: Map<K, BddMemoEmptyRef>, n: Map<K, BddMemoEmptyRef>) -> bool {
     forall|k: K| #![trigger o.contains_key(k)] #![trigger n.contains_key(k)] o.contains_key(k) ==> n.contains_key(k) && n[k] == o[k]
 }
+// the three steps of a wrapper (mark, decide, finalise or drop) keep the entries that were there before the mark
+pub broadcast proof fn lemma_memo_kept_mark<K>(o: Map<K, BddMemoEmptyRef>, k: K, v: BddMemoEmptyRef, n: Map<K, BddMemoEmptyRef>)
+    requires #[trigger] memo_kept(o.insert(k, v), n), !o.contains_key(k)
+    ensures memo_kept(o, n), n.contains_key(k), n[k] == v, memo_kept(o, n.remove(k)), forall|w: BddMemoEmptyRef| memo_kept(o, #[trigger] n.insert(k, w))
+{
+    assert(o.insert(k, v).contains_key(k));
+    assert forall|j: K| o.contains_key(j) implies n.contains_key(j) && n[j] == o[j] && j != k by { assert(o.insert(k, v).contains_key(j)); }
+}
 // the answer a memo entry stands for: a diagram met again while it is being decided counts as empty
 pub open spec fn memo_answer(e: MemoEmpty) -> IsEmptyStatus {
     match e { MemoEmpty::True => IsEmptyStatus::IsEmpty, MemoEmpty::False(ev) => ev, MemoEmpty::Undefined => IsEmptyStatus::IsEmpty }
